@@ -78,7 +78,12 @@ func handleRelational(raw json.RawMessage) *Obs {
 	if err := json.Unmarshal(raw, &cs); err != nil {
 		return &Obs{Fails: []Fail{{Sig: Signature{Symptom: "bad-case"}, Detail: err.Error()}}}
 	}
-	c := &saCtx{mode: "c01", obs: &Obs{}}
+	return handleRelationalMode("c01", raw, &cs)
+}
+
+func handleRelationalMode(mode string, raw json.RawMessage, csp *rCase) *Obs {
+	cs := *csp
+	c := &saCtx{mode: mode, obs: &Obs{}}
 	if cs.Prog[len(cs.Prog)-1].K != "allops" {
 		c.relChain(&cs)
 		return c.obs
@@ -182,10 +187,21 @@ func (c *saCtx) relChain(cs *rCase) {
 		lines = append(lines, fmt.Sprintf("let v%d = %s;", i+1, src))
 		c.obs.Evals++
 		if d := compare(exp[i], o); !d.ok {
-			c.fail(opname, l, r, exp[i], "", d, strings.Join(lines, " "))
+			if c.mode != "c03" {
+				c.fail(opname, l, r, exp[i], "", d, strings.Join(lines, " "))
+			}
 			break
 		}
 		vals[i] = o.V
+		if c.mode == "c03" {
+			for j := 0; j < i; j++ {
+				c.obs.Evals++
+				if dj := compare(exp[j], Outcome{V: vals[j]}); !dj.ok {
+					dj.symptom = "mutated"
+					c.fail(opname, exp[j], r, exp[j], "", dj, strings.Join(lines, " ")+fmt.Sprintf("  -- v%d changed after step %d", j+1, i+1))
+				}
+			}
+		}
 	}
 	c.obs.Sample = strings.Join(lines, " ")
 }
